@@ -1631,6 +1631,112 @@ def propagate_module_constants(prog: Program) -> List[str]:
     return out
 
 
+def index_chain_to_rows(fn_node) -> Optional[str]:
+    """A filter that tracks the surviving rows as an index vector into one base array (``rows = np.sort(idx); ... rows =
+    rows[keep]; ... return B[rows]``) is rewritten to carry the row set itself next to the index vector: after every
+    ``rows = E`` the statement ``B__sel = B[rows]`` is added (``B__sel = B__sel[keep]`` after ``rows = rows[keep]``, since
+    B[rows[keep]] == B[rows][keep]), and every read ``B[rows]`` becomes ``B__sel``.  ``rows.size`` / ``len(rows)`` are
+    read as those of the row set (equal in zero-ness as long as the base has at least one column).  Only the base array
+    that the function returns through is rewritten; the base must not be re-bound once the index vector exists."""
+    rets = [n for n in ast.walk(fn_node) if isinstance(n, ast.Return) and n.value is not None]
+    cand = None
+    for r in rets:
+        v = r.value
+        if isinstance(v, ast.Subscript) and isinstance(v.value, ast.Name) and isinstance(v.slice, ast.Name):
+            cand = (v.value.id, v.slice.id)
+        else:
+            return None
+    if cand is None:
+        return None
+    B, R = cand
+    order, stack_, k_ = {}, [fn_node], 0
+    while stack_:
+        n_ = stack_.pop()
+        order[id(n_)] = k_
+        k_ += 1
+        stack_.extend(reversed(list(ast.iter_child_nodes(n_))))
+    parents = {}
+    for p_ in ast.walk(fn_node):
+        for c_ in ast.iter_child_nodes(p_):
+            parents[id(c_)] = p_
+    r_stores = [n for n in ast.walk(fn_node) if isinstance(n, ast.Name) and n.id == R and not isinstance(n.ctx, ast.Load)]
+    b_stores = [n for n in ast.walk(fn_node) if isinstance(n, ast.Name) and n.id == B and not isinstance(n.ctx, ast.Load)]
+    if not r_stores or not b_stores or max(order[id(n)] for n in b_stores) > min(order[id(n)] for n in r_stores):
+        return None
+    for n in r_stores:
+        st = parents.get(id(n))
+        if not (isinstance(st, ast.Assign) and len(st.targets) == 1 and st.targets[0] is n):
+            return None
+    # every read of R is understood
+    for n in ast.walk(fn_node):
+        if isinstance(n, ast.Name) and n.id == R and isinstance(n.ctx, ast.Load):
+            par = parents.get(id(n))
+            if isinstance(par, ast.Subscript) and par.slice is n and isinstance(par.value, ast.Name):
+                continue  # X[R]
+            if isinstance(par, ast.Subscript) and par.value is n:
+                gp = parents.get(id(par))
+                if isinstance(gp, ast.Assign) and gp.value is par and len(gp.targets) == 1 and isinstance(gp.targets[0], ast.Name) and gp.targets[0].id == R:
+                    continue  # R = R[sel]
+                return None
+            if isinstance(par, ast.Attribute) and par.attr in ("size", "shape"):
+                continue
+            if isinstance(par, ast.Call) and isinstance(par.func, ast.Name) and par.func.id == "len":
+                continue
+            return None
+    V = f"{B}__sel"
+    names = {n.id for n in ast.walk(fn_node) if isinstance(n, ast.Name)}
+    while V in names:
+        V += "_"
+
+    class Rw(ast.NodeTransformer):
+        def visit_Subscript(self, node):
+            self.generic_visit(node)
+            if isinstance(node.value, ast.Name) and node.value.id == B and isinstance(node.slice, ast.Name) and node.slice.id == R and isinstance(node.ctx, ast.Load):
+                return ast.copy_location(ast.Name(id=V, ctx=ast.Load()), node)
+            return node
+
+        def visit_Attribute(self, node):
+            self.generic_visit(node)
+            if isinstance(node.value, ast.Name) and node.value.id == R and node.attr == "size" and isinstance(node.ctx, ast.Load):
+                node.value = ast.copy_location(ast.Name(id=V, ctx=ast.Load()), node.value)
+            return node
+
+        def visit_Call(self, node):
+            self.generic_visit(node)
+            if isinstance(node.func, ast.Name) and node.func.id == "len" and len(node.args) == 1 and isinstance(node.args[0], ast.Name) and node.args[0].id == R:
+                node.args[0] = ast.copy_location(ast.Name(id=V, ctx=ast.Load()), node.args[0])
+            return node
+
+    # remember which assignments refine R before the reads are rewritten
+    refine = {}
+    for n in r_stores:
+        st = parents[id(n)]
+        v = st.value
+        refine[id(st)] = v.slice if (isinstance(v, ast.Subscript) and isinstance(v.value, ast.Name) and v.value.id == R) else None
+    Rw().visit(fn_node)
+    for blk_owner in ast.walk(fn_node):
+        for fld in ("body", "orelse", "finalbody"):
+            blk = getattr(blk_owner, fld, None)
+            if not (isinstance(blk, list) and blk and isinstance(blk[0], ast.stmt)):
+                continue
+            i = 0
+            while i < len(blk):
+                st = blk[i]
+                i += 1
+                if id(st) not in refine:
+                    continue
+                sel = refine[id(st)]
+                if sel is None:
+                    val = ast.Subscript(value=ast.Name(id=B, ctx=ast.Load()), slice=ast.Name(id=R, ctx=ast.Load()), ctx=ast.Load())
+                else:
+                    val = ast.Subscript(value=ast.Name(id=V, ctx=ast.Load()), slice=copy.deepcopy(sel), ctx=ast.Load())
+                new = ast.copy_location(ast.Assign(targets=[ast.Name(id=V, ctx=ast.Store())], value=val), st)
+                blk.insert(i, new)
+                i += 1
+    ast.fix_missing_locations(fn_node)
+    return f"{R} -> {V} = {B}[{R}]"
+
+
 def _noneness(e) -> Optional[bool]:
     """True = certainly None, False = certainly not None, None = unknown."""
     if isinstance(e, ast.Constant):
@@ -1851,6 +1957,16 @@ def normalise(prog: Program) -> Tuple[Program, List[str]]:
         ff = Roles(prog).filter_fn
     except Exception:
         ff = None
+    if ff is not None and body_hash(ff.node) not in _inventory()[1]:
+        ic = index_chain_to_rows(ff.node)
+        if ic:
+            log.append(f"{ff.qualname} (rows tracked through an index vector: {ic})")
+            trees = {m.relpath: m.tree for m in prog.modules.values()}
+            prog = Program(prog.root, override_trees=trees)
+            try:
+                ff = Roles(prog).filter_fn
+            except Exception:
+                ff = None
     if ff is not None and single_exit_form(ff.node):
         log.append(f"{ff.qualname} (single-exit form)")
         trees = {m.relpath: m.tree for m in prog.modules.values()}
